@@ -15,7 +15,8 @@ import (
 )
 
 type vcluster struct {
-	nodes   map[string]*vnode.Node // by ip
+	nodes   map[string]*vnode.Node // by ip (add: one node per IP address, port 9042) or by "ip:port" (addAt: several nodes may share an IP)
+	byPort  bool                   // some node was added with addAt: the dialer routes by "ip:port" first
 	order   []string
 	clients []*vnet.Conn
 	dials   int
@@ -38,9 +39,28 @@ func (cl *vcluster) add(ip string, h vnode.Handler) *vnode.Node {
 	return n
 }
 
+// addAt adds a node that listens on ip:port and is keyed by "ip:port" (in nodes, order, dialFate and the pipe names), so
+// that several nodes can share one IP address and differ only in their port (address translation / NAT, local clusters).
+// Nodes added with add keep their one-port-per-IP behaviour (key = ip).
+func (cl *vcluster) addAt(ip string, port int, h vnode.Handler) *vnode.Node {
+	key := (&net.TCPAddr{IP: net.ParseIP(ip), Port: port}).String()
+	n := vnode.New("n"+key, net.ParseIP(ip), port, h)
+	cl.nodes[key] = n
+	cl.byPort = true
+	cl.order = append(cl.order, key)
+	sort.Strings(cl.order)
+	return n
+}
+
 func (cl *vcluster) dialer() gocql.HostDialer {
 	return gocql.VerifDialFunc{DisableCoalesce: true, Fn: func(ctx context.Context, host *gocql.HostInfo) (net.Conn, error) {
 		ip := gocql.VerifHostAddr(host)
+		if cl.byPort {
+			// a node keyed by "ip:port" is reached only on exactly that port; from here on ip is that key
+			if key := gocql.VerifHostAddrPort(host); cl.nodes[key] != nil {
+				ip = key
+			}
+		}
 		n := cl.nodes[ip]
 		cl.dials++
 		if cl.dialFate != nil {
